@@ -26,6 +26,9 @@ pub struct Case {
     pub steps: Vec<Step>,
     /// try to pin the address space right behind the mapping so that growth cannot extend in place
     pub force_move: bool,
+    /// the store directory is on the block file system under the verification root instead of tmpfs
+    #[serde(default)]
+    pub disk: bool,
 }
 
 pub struct C15;
@@ -89,7 +92,7 @@ impl Prop for C15 {
         "C15"
     }
     fn rule(&self) -> String {
-        "Cases: sequences of 1..25 steps: store an event (from this or another thread), take a reference to an earlier event (by offset, by id, from a query) remembering its address and a copy of its bytes, or store filler events until the backing file has grown 1..3 more times. In 80% of the cases one PROT_NONE page is mapped (MAP_FIXED_NOREPLACE) directly behind the current mapping before each store, so that growth cannot extend in place and a moving remap is forced deterministically instead of depending on address-space luck. Oracle after every step, for every held reference: a fresh get_event_by_offset of the same offset has the same address, and the fresh bytes equal the copy taken when the reference was obtained; the stale reference itself is never dereferenced. Non-trivial: >= 1 reference held across >= 1 growth.".into()
+        "Cases: sequences of 1..25 steps: store an event (from this or another thread), take a reference to an earlier event (by offset, by id, from a query) remembering its address and a copy of its bytes, or store filler events until the backing file has grown 1..3 more times. 30% of the sequences run in a directory on the block file system under the verification root (ext4 here), the others on tmpfs. In 80% of the cases one PROT_NONE page is mapped (MAP_FIXED_NOREPLACE) directly behind the current mapping before each store, so that growth cannot extend in place and a moving remap is forced deterministically instead of depending on address-space luck. Oracle after every step, for every held reference: a fresh get_event_by_offset of the same offset has the same address, and the fresh bytes equal the copy taken when the reference was obtained; the stale reference itself is never dereferenced. Non-trivial: >= 1 reference held across >= 1 growth.".into()
     }
     fn assumptions(&self) -> Vec<String> {
         vec![
@@ -115,8 +118,8 @@ impl Prop for C15 {
             2 => (1u8..4, prop::sample::select(if cfg!(debug_assertions) { vec![200u32, 900, 3000] } else { vec![400_000u32, 1_500_000, 3_000_000] })).prop_map(|(times, content_len)| Step::GrowBy { times, content_len }),
             1 => (2u8..5, 8u8..40).prop_map(|(threads, per_thread)| Step::ConcurrentStores { threads, per_thread }),
         ];
-        (prop::collection::vec(step, 1..25), prop::bool::weighted(0.8))
-            .prop_map(|(steps, force_move)| Case { steps, force_move })
+        (prop::collection::vec(step, 1..25), prop::bool::weighted(0.8), prop::bool::weighted(0.3))
+            .prop_map(|(steps, force_move, disk)| Case { steps, force_move, disk })
             .boxed()
     }
     fn label_floors(&self) -> Vec<(&'static str, f64)> {
@@ -124,7 +127,8 @@ impl Prop for C15 {
     }
     fn check(&self, c: &Case) -> Outcome {
         let mut out = Outcome::default();
-        let mut w = match World::new(0) {
+        out.label(if c.disk { "on-block-filesystem" } else { "on-tmpfs" });
+        let mut w = match World::new_on(0, c.disk) {
             Ok(w) => w,
             Err(f) => {
                 out.fail(format!("C15:{}", f.key), f.detail);
